@@ -33,6 +33,14 @@ def run(ctx):
     repo = ctx.repo
     cg = get_cg(ctx)
     check_limits(ctx, ctx.repo)
+    # "a later call on ordinary input still works": an exception that unwinds through the pipeline (RecursionError translated
+    # at the top, or the SQLParseError itself) must not leave a counter, flag or table behind in state that outlives the call
+    from . import c20
+    ctx.rule('R15.7', 'a call that fails leaves nothing behind: no import-time closure cell and no class/module variable is written on the request path', floor=2)
+    c20.check_closure_cells(ctx, 'R15.7')
+    c20.check_global_writes(ctx, 'R15.7')
+    from .. import rules_lexer as RL
+    RL.check_singleton_lock(ctx, 'R15.7')
     m = ctx.shared('runmodel', lambda: RK.RunModel(ctx))
     f = m.f
     loc = f'{f.mod.relpath}:{f.node.lineno}'
